@@ -505,6 +505,23 @@ fn history_symbols(file: bool) -> Vec<H> {
 
 fn run(ctx: &Ctx, report: &mut Report) {
     crate::util::silence_panics();
+    if ctx.shard == 12 % ctx.of {
+        report.evaluations += 1;
+        report.count("old_format_store_files", 1);
+        let case = json!({"old_format_peers": 2});
+        match crate::util::catch(|| super::oldfmt::check(2, "C15")) {
+            Err(p) => report.violation("no_panic", json!({"old_format": true}), case, format!("panic: {p}"), 0),
+            Ok(bad) => {
+                for (o, d) in bad {
+                    if o == "MACHINERY" {
+                        report.machinery_error(d);
+                    } else {
+                        report.violation(o, json!({"old_format": true}), case.clone(), d, 0);
+                    }
+                }
+            }
+        }
+    }
     super::apifam::run_life_family(ctx, report, "C15");
     super::live::run_live_family(ctx, report, "C15");
     let keys = strings(3);
@@ -608,6 +625,11 @@ fn run(ctx: &Ctx, report: &mut Report) {
 }
 
 fn replay(case: &Value) -> anyhow::Result<(bool, String)> {
+    if let Some(n) = case.get("old_format_peers").and_then(|n| n.as_u64()) {
+        let bad = crate::util::catch(|| super::oldfmt::check(n as u8, "C15")).map_err(|p| anyhow::anyhow!(p))?;
+        let out: String = bad.iter().map(|(o, d)| format!("FAILED {o}: {d}\n")).collect();
+        return Ok((!bad.is_empty(), format!("store file of the redb 2.x format\n{out}")));
+    }
     if let Some(r) = super::apifam::replay_life(case, "C15")? {
         return Ok(r);
     }
